@@ -23,13 +23,15 @@ class BlockList:
     def grade_blocks(self) -> None:
         # start from scratch: what was copied from neighbours in a previous run
         # (the mesh could have been written before, and vertices moved since) is stale
+        # (that goes for chopped blocks too: a neighbour that is graded before them would copy
+        # what they hold from the previous run)
         for block in self.blocks:
             for axis in block.axes:
                 if isinstance(axis.wires, WirePropagateManager):
                     axis.wires.chops = []
 
-                    for wire in axis.wires:
-                        wire.grading = Grading(wire.length)
+                for wire in axis.wires:
+                    wire.grading = Grading(wire.length)
 
         for block in self.blocks:
             block.grade()
